@@ -16,6 +16,7 @@ import (
 	"testing"
 	"time"
 
+	abci "github.com/tendermint/tendermint/abci/types"
 	"github.com/tendermint/tendermint/consensus"
 	"github.com/tendermint/tendermint/crypto"
 	"github.com/tendermint/tendermint/crypto/ed25519"
@@ -108,6 +109,43 @@ func genConfig(rng *simcore.RNG, env *simcore.Env) simcore.Op {
 			c["part"] = []int{1024, 65536}[rng.Intn(2)]
 			c["nops"] = rng.Range(6, 24)
 			c["prune"] = 30
+		}
+	}
+	// the application answers InitChain with its own validator set (>= 2 members among the
+	// keys the simulator holds, different from the genesis document) and possibly parameters
+	c["initvals"] = []int{}
+	c["initmaxbytes"] = 0
+	if c.Int("big") == 0 && rng.Bool(0.3) {
+		iv := make([]int, 4)
+		choices := []int{1, 2, 3, 5, 10, 30, 31, 1000, 100000}
+		for i := range iv {
+			if rng.Bool(0.6) {
+				iv[i] = choices[rng.Intn(len(choices))]
+			}
+		}
+		p := rng.Perm(4)
+		for _, i := range p[:2] {
+			if iv[i] == 0 {
+				iv[i] = choices[rng.Intn(len(choices))]
+			}
+		}
+		same := true
+		for i := range iv {
+			g := 0
+			if i < len(pw) {
+				g = pw[i]
+			}
+			if iv[i] != g {
+				same = false
+			}
+		}
+		if same {
+			iv[p[0]] += 7
+		}
+		c["initvals"] = iv
+		c["maxkeys"] = 4
+		if rng.Bool(0.3) {
+			c["initmaxbytes"] = 1100000 + rng.Intn(4000000)
 		}
 	}
 	return c
@@ -211,11 +249,49 @@ func newSim(env *simcore.Env, cfg simcore.Op) simcore.Sim {
 	}
 	ctl := &simdisk.Ctl{}
 	n := &node{ctl: ctl, bdb: simdisk.NewCrashDB("block", nil, ctl), sdb: simdisk.NewCrashDB("state", nil, ctl)}
+	// what the chain starts with: the genesis validators, unless the application replaces them
+	// in its answer to InitChain
+	app := simapp.NewRecApp(cfg.Int("hashlen"))
+	var initial []change
+	for i, p := range powers {
+		initial = append(initial, change{addr: key(i).PubKey().Address(), power: p})
+	}
+	if iv := cfg.Ints("initvals"); len(iv) > 0 {
+		initial = nil
+		for i, p := range iv {
+			if p > 0 && i < 16 {
+				app.InitVals = append(app.InitVals, abci.Ed25519ValidatorUpdate(key(i).PubKey().Bytes(), int64(p)))
+				initial = append(initial, change{addr: key(i).PubKey().Address(), power: int64(p)})
+			}
+		}
+		if len(initial) == 0 {
+			app.InitVals, initial = nil, nil
+			for i, p := range powers {
+				initial = append(initial, change{addr: key(i).PubKey().Address(), power: p})
+			}
+		} else {
+			env.Count("probe.initchain_returns_validators")
+		}
+	}
+	wantParams := *types.DefaultConsensusParams()
+	if mb := cfg.Int64("initmaxbytes"); mb > 0 {
+		// The version is included and equals the AppVersion the application reports in Info:
+		// the handshake takes the application version from Info while the state is at height 0
+		// but from these parameters when InitChain returns any, so an application whose two
+		// answers differ cannot replay its first block after a crash (seen with a version-less
+		// update; an inconsistency of the application, not part of the properties checked here).
+		app.InitParams = &abci.ConsensusParams{Block: &abci.BlockParams{MaxBytes: mb, MaxGas: -1}, Version: &tmproto.VersionParams{AppVersion: 1}}
+		wantParams.Block.MaxBytes, wantParams.Block.MaxGas, wantParams.Version.AppVersion = mb, -1, 1
+		env.Count("probe.initchain_returns_params")
+	}
 	c := chaingen.New(chaingen.Opts{ChainID: s.chainID, InitialHeight: s.init, Powers: powers, BlockDB: n.bdb, StateDB: n.sdb,
-		HashLen: cfg.Int("hashlen"), PartSize: s.partSize})
+		App: app, PartSize: s.partSize})
 	mk := cfg.Int("maxkeys")
 	if mk < len(powers) {
 		mk = len(powers)
+	}
+	if l := len(cfg.Ints("initvals")); mk < l && l <= 16 {
+		mk = l
 	}
 	for i := 0; i < mk; i++ {
 		c.KnowKey(i)
@@ -232,23 +308,44 @@ func newSim(env *simcore.Env, cfg simcore.Op) simcore.Sim {
 	s.appVals = s.app.Validators()
 
 	if env.Checking("C08") {
-		// the genesis set is the empty set updated with the genesis members, rotated once
-		var batch []change
-		for i, p := range powers {
-			batch = append(batch, change{addr: key(i).PubKey().Address(), power: p})
-		}
-		r0, err := refUpdate(refSet{}, batch, types.MaxTotalVotingPower)
+		// The chain starts from the initial member list (genesis, or the application's answer
+		// to InitChain): the set of the initial height is the set constructed from that list
+		// (the empty set updated with the members, rotated once), the set of the next height is
+		// that set advanced by one proposer-selection run, and there is no last set.
+		r0, err := refUpdate(refSet{}, initial, types.MaxTotalVotingPower)
 		if err != nil {
 			panic(err)
 		}
 		r1, _ := refIncrement(r0, 1)
 		if msg := cmpRefReal(r1, c.State.Validators, true); msg != "" {
-			env.Fail("C08", "genesis-set-wrong", "genesis validators: %s", msg)
+			env.Fail("C08", "genesis-set-wrong", "validators of the initial height %d: %s | real %s", s.init, msg, setString(c.State.Validators))
 		}
-		r2, _ := refIncrement(refFromReal(c.State.Validators), 1)
+		if msg := setInvariants(c.State.Validators, types.MaxTotalVotingPower); msg != "" {
+			env.Fail("C08", "set-malformed", "validators of the initial height %d: %s", s.init, msg)
+		}
+		r2, _ := refIncrement(r1, 1)
 		if msg := cmpRefReal(r2, c.State.NextValidators, true); msg != "" {
-			env.Fail("C08", "genesis-set-wrong", "genesis next validators: %s", msg)
+			env.Fail("C08", "genesis-next-set-wrong", "validators of height %d are not those of the initial height %d advanced by one proposer-selection run: %s | initial %s | next %s", s.init+1, s.init, msg, setString(c.State.Validators), setString(c.State.NextValidators))
 		}
+		if c.State.LastValidators != nil && len(c.State.LastValidators.Validators) != 0 {
+			env.Fail("C08", "genesis-set-wrong", "before the first block the last validator set has %d members", len(c.State.LastValidators.Validators))
+		}
+		if len(s.appVals) != len(initial) {
+			env.Fail("C08", "genesis-set-wrong", "the application starts with %d validators, the chain with %d", len(s.appVals), len(initial))
+		}
+		// what the node will answer for these heights must be what it runs them with
+		for _, h := range []int64{s.init, s.init + 1} {
+			got, err := c.StateStore.LoadValidators(h)
+			if err != nil {
+				env.Fail("C18", "validators-missing", "genesis: LoadValidators(%d): %v", h, err)
+			}
+			if msg := equalSets(got, s.vals[h]); msg != "" {
+				env.Fail("C08", s.classifyHistorical(h, got), "genesis: LoadValidators(%d) is not the set the node runs height %d with: %s | loaded %s | state %s", h, h, msg, setString(got), setString(s.vals[h]))
+			}
+		}
+	}
+	if !wantParams.Equal(&c.State.ConsensusParams) {
+		env.Fail("C18", "params-wrong", "parameters of the initial height are %v, expected %v", c.State.ConsensusParams, wantParams)
 	}
 
 	// the validator-set laboratory
